@@ -167,14 +167,19 @@ macro_rules! array_contract_checks {
                 // thorough tier occasionally goes to 200
                 let huge = ctx.thorough && r.chance(1, 50);
                 let big = huge || r.chance(1, 8);
-                let maxlen = if huge { 200 } else if big { 40 } else { 6 };
-                let n = r.small(maxlen);
+                // and one case in 300 uses arrays of several hundred elements (block-wise implementations)
+                let large = r.chance(1, 300);
+                let maxlen = if large { 700 } else if huge { 200 } else if big { 40 } else { 6 };
+                if large {
+                    ctx.class("arrays_of_several_hundred_elements");
+                }
+                let n = if large { r.range(256, maxlen) } else { r.small(maxlen) };
                 let bound = if big { r.range(1, 40) } else { r.range(1, 5) };
                 if big {
                     ctx.class("arrays_up_to_40");
                 }
                 let v: Vec<usize> = r.vec_below(n, bound);
-                let m = r.small(maxlen);
+                let m = if large { r.range(256, maxlen) } else { r.small(maxlen) };
                 let u: Vec<usize> = r.vec_below(m, bound);
                 let variant = r.below(12);
                 let key = if v.is_empty() { None } else { Some(hash_of(&(variant, &v, &u))) };
